@@ -1,1 +1,65 @@
 //! Hooks for property C37.
+//!
+//! Thin public wrappers around `pub(crate)` methods of [`Config`], [`GtBank`] and
+//! [`TreasuryVaultConfig`]. No logic lives here.
+
+use anchor_lang::prelude::*;
+
+use crate::states::{Config, GtBank, TreasuryVaultConfig};
+
+pub fn config_init(c: &mut Config, bump: u8, receiver_bump: u8, store: &Pubkey) {
+    c.init(bump, receiver_bump, store)
+}
+
+pub fn config_set_treasury_vault_config(c: &mut Config, address: Pubkey) -> Result<Pubkey> {
+    c.set_treasury_vault_config(address)
+}
+
+pub fn config_set_gt_factor(c: &mut Config, factor: u128) -> Result<u128> {
+    c.set_gt_factor(factor)
+}
+
+pub fn config_set_buyback_factor(c: &mut Config, factor: u128) -> Result<u128> {
+    c.set_buyback_factor(factor)
+}
+
+pub fn treasury_vault_config_init(t: &mut TreasuryVaultConfig, bump: u8, index: u16, config: &Pubkey) {
+    t.init(bump, index, config)
+}
+
+pub fn gt_bank_try_init(
+    b: &mut GtBank,
+    bump: u8,
+    treasury_vault_config: Pubkey,
+    gt_exchange_vault: Pubkey,
+) -> Result<()> {
+    b.try_init(bump, treasury_vault_config, gt_exchange_vault)
+}
+
+pub fn gt_bank_record_transferred_in(b: &mut GtBank, token: &Pubkey, amount: u64) -> Result<()> {
+    b.record_transferred_in(token, amount)
+}
+
+pub fn gt_bank_record_transferred_out(b: &mut GtBank, token: &Pubkey, amount: u64) -> Result<()> {
+    b.record_transferred_out(token, amount)
+}
+
+pub fn gt_bank_record_all_transferred_out(b: &mut GtBank) -> Result<()> {
+    b.record_all_transferred_out()
+}
+
+pub fn gt_bank_reserve_balances(b: &mut GtBank, numerator: &u128, denominator: &u128) -> Result<()> {
+    b.reserve_balances(numerator, denominator)
+}
+
+pub fn gt_bank_confirm_unchecked(b: &mut GtBank, gt_amount: u64) -> Result<()> {
+    b.confirm_unchecked(gt_amount)
+}
+
+pub fn gt_bank_record_claimed(b: &mut GtBank, gt_amount: u64) -> Result<()> {
+    b.record_claimed(gt_amount)
+}
+
+pub fn gt_bank_remaining_confirmed_gt_amount(b: &GtBank) -> u64 {
+    b.remaining_confirmed_gt_amount()
+}
